@@ -82,6 +82,12 @@ def run_shard(spec, ctx):
         ctx.sample({'cells': L, 'compact': a5.compact(list(L))})
     elif spec['part'] == 'random':
         for _ in range(60 * spec['n']):
+            X = list(tree.antichain(cc.head_cascade(rnd, a5, gen)))
+            L = cc.presentations(rnd, X, tree, True)
+            ctx.case(tuple(L), nontrivial=True)
+            ctx.count('head_cascade_cases')
+            eval_case(a5, tree, L, ctx, {'cells': L})
+        for _ in range(60 * spec['n']):
             X = cc.small_mixed(rnd, a5, gen)
             L = cc.presentations(rnd, X, tree, True)
             ctx.case(tuple(L), nontrivial=True)
@@ -100,10 +106,10 @@ def run_shard(spec, ctx):
             eval_case(a5, tree, L, ctx, {'cells': L})
         # the property's own observation point, set(uncompact(compact(X), R)) == set(uncompact(X, R)), on bounded cases; several
         # different X under the same root, each with a foreign cell in the list, are observed one after the other
-        for _ in range(8 * spec['n']):
-            rr = rnd.randint(1, 24)
+        for it_ in range(8 * spec['n']):
+            rr = rnd.randint(1, 24) if it_ % 10 else rnd.choice((0, 0, 1))
             root = gen.random_cell(rnd, a5, rr)
-            depth = rnd.randint(2, 5)
+            depth = rnd.randint(2, 5) if it_ % 10 else 6
             R = rr + depth
             for rep in range(3):
                 X = cc.spine(rnd, a5, root, rr, depth, rnd.random() < 0.7)
